@@ -1,6 +1,7 @@
 package main
 
 import (
+	"bytes"
 	"math"
 	"math/big"
 	"math/rand"
@@ -218,6 +219,10 @@ func lexWKT(b []byte) []interface{} {
 	return out
 }
 
+// texts returned by the previous case's Encode calls (the very slices) and private copies of them: an encoding that a
+// caller still holds must not change when something else is encoded afterwards
+var c06PrevGJ, c06PrevGJCopy, c06PrevWKT, c06PrevWKTCopy []byte
+
 func runC06(c map[string]interface{}) []Event {
 	if v, ok := c["extra"]; ok { // random driver: the seeded value table travels with the case
 		c06Extra = c06Extra[:0]
@@ -228,13 +233,15 @@ func runC06(c map[string]interface{}) []Event {
 		c06Extra = nil
 	}
 	g := decGeom(c["g"], c06Dec)
-	e := Event{"ev": "text", "gjtokens": []interface{}{}, "wkttokens": []interface{}{}, "gjdec": noGeom}
+	e := Event{"ev": "text", "gjtokens": []interface{}{}, "wkttokens": []interface{}{}, "gjdec": noGeom, "gjkeep": true, "wktkeep": true}
 	e["gjout"] = safely(func() {
 		b, err := geojson.Encode(g)
 		if err != nil {
 			e["gjout2"] = "err"
 			return
 		}
+		e["gjkeep"] = bytes.Equal(c06PrevGJ, c06PrevGJCopy)
+		c06PrevGJ, c06PrevGJCopy = b, append([]byte(nil), b...)
 		e["gjtokens"] = lexJSON(b)
 		d, err := geojson.Decode(b)
 		if err == nil && d != nil {
@@ -250,6 +257,8 @@ func runC06(c map[string]interface{}) []Event {
 			e["wktout2"] = "err"
 			return
 		}
+		e["wktkeep"] = bytes.Equal(c06PrevWKT, c06PrevWKTCopy)
+		c06PrevWKT, c06PrevWKTCopy = b, append([]byte(nil), b...)
 		e["wkttokens"] = lexWKT(b)
 	})
 	if _, bad := e["wktout2"]; bad {
